@@ -1,11 +1,13 @@
 """C11 Ill-formed designs are rejected, well-formed ones accepted (specs/core/TxnCore.tla, TxnCoreTrace.tla, TxnCoreMC.tla)."""
 from vlib.core import core_check
 
-OPTS = [dict(p_defect=0.35), dict(p_defect=0.2, p_rel=1.0, p_nested=0.3), dict(p_defect=0.0, p_struct=0.8, p_nonexcl=0.5), dict(p_defect=0.3, max_m=3, max_t=2)]
+OPTS = [dict(p_defect=0.35), dict(p_defect=0.2, p_rel=1.0, p_nested=0.3), dict(p_defect=0.0, p_struct=0.8, p_nonexcl=0.5), dict(p_defect=0.3, max_m=3, max_t=2),
+        # ready-dependent ordering between conflicting transactions; the same pair related twice
+        dict(p_defect=0.0, p_rdepconf=0.7, p_dblrel=0.5, max_m=3, max_t=3, p_rel=0.3)]
 
 
 def run(rep):
-    core_check(rep, "C11", [dict(o) for o in OPTS], 160, 5000, nontrivial_key="impl_designs", cyc_quick=32, cyc_thorough=64)
+    core_check(rep, "C11", [dict(o) for o in OPTS], 200, 6000, nontrivial_key="impl_designs", cyc_quick=32, cyc_thorough=64)
     rep.coverage["rule"] = ("random designs from vlib/coregen.py's grammar built with the real API, every valuation of the "
                             "control inputs (or random ones when there are many), both directions bound by TxnCoreTrace; "
                             "clause RaisedIffIllFormed: elaboration raised <=> TxnCore!VerdictD(design) # ok, for generated designs incl. deliberately defective ones and their repaired neighbours; distinct_nontrivial = designs judged")
